@@ -16,16 +16,30 @@ ran = []
 def run(cmd, **kw):
     ran.append(cmd if isinstance(cmd, str) else ' '.join(cmd))
     return subprocess.run(cmd, shell=isinstance(cmd, str), capture_output=True, text=True, **kw)
-# fresh diff from the worktree
-diff = run(f'git -C {wt} diff').stdout
-assert diff.strip(), 'empty diff'
-open(f'{S}/{pid}.patch.diff', 'w').write(diff)
-r1 = run(f'/venv/bin/python {S}/{pid}.demo.py', env=dict(env, DEMO_REPO=wt), cwd='/tmp')
-r0 = run(f'/venv/bin/python {S}/{pid}.demo.py', env=dict(env, DEMO_REPO='/repo'), cwd='/tmp')
+# fresh scratch worktree with the delivered patch applied (independent of the agent's own worktree)
+patch = f'{S}/{pid}.patch.diff' if os.path.exists(f'{S}/{pid}.patch.diff') else f'/verif/seeded/{name}/patch.diff'
+if not os.path.exists(f'{S}/{pid}.demo.py'):
+    shutil.copy(f'/verif/seeded/{name}/demo.py', f'{S}/{pid}.demo.py')
+    shutil.copy(f'/verif/seeded/{name}/meta.json', f'{S}/{pid}.meta.json')
+    shutil.copy(patch, f'{S}/{pid}.patch.diff')
+wt = f'/tmp/seedv/{name}'
+run(f'git -C /repo worktree remove --force {wt}')
+os.makedirs('/tmp/seedv', exist_ok=True)
+r = run(f'git -C /repo worktree add -q --detach {wt} HEAD && git -C {wt} apply {S}/{pid}.patch.diff')
+assert r.returncode == 0, r.stderr
+pp = wt + '.pp'
+if os.path.islink(pp): os.unlink(pp)
+os.symlink(wt, pp)
+env['PYTHONPATH'] = pp
+r1 = run(f'/venv/bin/python {S}/{pid}.demo.py', env=dict(env, DEMO_REPO=wt, PYTHONPATH=''), cwd='/tmp')
+r0 = run(f'/venv/bin/python {S}/{pid}.demo.py', env=dict(env, DEMO_REPO='/repo', PYTHONPATH=''), cwd='/tmp')
 print('demo changed exit', r1.returncode, '| pristine exit', r0.returncode)
 print((r1.stdout + r1.stderr)[-600:])
 junit = f'{S}/{pid}.verify.junit.xml'
-t = run(f'cd {wt} && /venv/bin/python -m pytest -q -p no:cacheprovider --timeout=900 --continue-on-collection-errors --junitxml={junit} > /dev/null 2>&1', env=env)
+t = run(f'cd {wt} && /venv/bin/python -m pytest -q -p no:cacheprovider --timeout=900 --continue-on-collection-errors --junitxml={junit} > {S}/{pid}.verify.log 2>&1', env=env)
+which = run(f'cd {wt} && /venv/bin/python -c "import testing, phasegen; print(phasegen.__file__)"', env=env).stdout.strip().split(chr(10))[-1]
+print('suite imported phasegen from', which)
+assert which.startswith(wt) or which.startswith(pp), which
 passed = set()
 for tc in ET.parse(junit).iter('testcase'):
     if not list(tc):
@@ -54,3 +68,5 @@ if ok:
     print('filed under', dst, 'detected_by', meta['detected_by'])
 else:
     print('NOT CONFIRMED')
+run(f'git -C /repo worktree remove --force {wt}')
+if os.path.islink(pp): os.unlink(pp)
